@@ -42,6 +42,37 @@ CHECKS["C17"] = (
     "DESIGN.md 7/C17",
 )
 
+CHECKS["C02"] = (
+    "Coq induction over program trees on a block-structure model of the emitted Python (py_wf: non-empty suites, else after if, break/continue in a loop and not across a def, return in a def) + proof obligation over template shapes regenerated with Python's ast + three correspondences evaluated in Coq (exact text, block skeleton of ast.parse, py_wf vs compile())",
+    "Machine-checked: every regenerated element/modifier template is a valid context-free statement sequence (C02_templates, finite sweep); for every program tree of any depth the emitted code satisfies Python's context conditions when early exits stand where ctx_ok allows (C02_context_conditions), in particular every program without X/x. That the block model and the text model describe what transpile() emits is checked on every run: exact text equality, skeleton of ast.parse(text) = shape_program, py_wf = compile() verdict.",
+    "Trusted: coqc kernel; translator (template shapes via Python ast/compile); 'a py_wf block tree over compiled leaves renders to compilable text' is measured both ways on every case, not proved (no Python grammar in Coq); model = implementation by correspondence. Two genuine defect classes are recorded as known findings (exit inside a list item in a loop; exit in a while condition).",
+    "DESIGN.md 7/C02",
+)
+CHECKS["C08"] = (
+    "Coq theorems (vec_complete d -> elementwise (elem d base), unbounded nesting, for every scalar base) + vm_compute sweep over dispatch skeletons regenerated from elements.py's AST + vectorise/vy_zip model-vs-implementation correspondence in Coq",
+    "Machine-checked: any element whose regenerated dispatch tree is vec_complete acts element-wise (list -> map, list/scalar, scalar/list, list/list position-wise with zero fill, recursively, eager and lazy alike) for every scalar overload function; all 88 curated elements' regenerated trees are vec_complete (C08_table). Type combinations for which elements.yaml itself documents a list overload are excluded and listed in the evidence.",
+    "Trusted: coqc kernel; translator tools/gen_dispatch.py (fail-closed: unrecognised shapes become Other); that Python's dict dispatch on vy_type behaves as the tree interpreter and that vectorise/vy_zip equal the model is tested (correspondence + oracle over flat/nested/lazy lists), not proved.",
+    "DESIGN.md 7/C08",
+)
+CHECKS["C11"] = (
+    "Coq invariants by induction over operation histories (fold_left, unbounded) on a model of Context.inputs/get_input/pop + history and program correspondence evaluated in Coq",
+    "Machine-checked for every well-scoped history: the j-th value served from the program's inputs (explicit reads at any depth + implicit reads at top level) is input j mod n on one shared cursor; with no inputs every read is 0; inside a call implicit reads cycle over that call's arguments and leave the top cursor untouched; a pop of k from j items performs k-j implicit reads.",
+    "Trusted: coqc kernel; stdin empty (reads return 0) is an assumption of the model; model = helpers.get_input/pop/templates is tested on exhaustive and random histories against the real Context and on programs through execute_vyxal, not proved.",
+    "DESIGN.md 7/C11",
+)
+CHECKS["C13"] = (
+    "Coq refinement proof: every LazyList method (heap of cells with lazy-view copies) returns what the same observation returns on the denoted plain list and preserves every cell's denotation; lifted to all histories by induction + correspondence evaluated in Coq",
+    "Machine-checked for every finite source and every history of observations (index with wrap-around, negative index, all slice forms, len, iteration, bool, contains, eq, count, reversed, listify, next, deep copies of copies): outputs = spec on the source, denotations never change (C13_step, C13, C13_denotation_kept).",
+    "Trusted: coqc kernel; model = vyxal/LazyList.py + helpers.deep_copy is tested (all histories of length 2/3 over 28-30 parametrised operations on 40 sources, random to length 12; length 4 against a plain-list oracle), not proved; CPython generator/tee behaviour is modelled. Slice step 0 is outside (a plain list raises).",
+    "DESIGN.md 7/C13",
+)
+CHECKS["C14"] = (
+    "Coq theorems on pull-machine models of the lazy transformations (exact pull counts and outputs for all n by induction; composition theorem for linear bounds) + measured pull counts and outputs compared with the model in Coq",
+    "Machine-checked for all n: each modelled transformation needs exactly/at most the stated linear number of source pulls for n outputs and outputs the mathematical transformation of the prefix; bounds compose through any number of stages. PARTIAL by nature: that the running Python generators terminate and are that lazy is observed (instrumented infinite source, watchdog), n <= 12/40.",
+    "Trusted: coqc kernel; the pull machine as a model of CPython generator scheduling; measured counts agree exactly with the model on every catalogued stage and random compositions of 2-3 (tested, not proved). group_consecutive only for sources whose neighbours differ.",
+    "DESIGN.md 7/C14",
+)
+
 NOT_YET = {}
 
 def main():
